@@ -917,16 +917,23 @@ func Harness_C15_small_seek() {
 }
 
 // Harness_C15_small_refsfor: RefsFor on small tables with symbolic object ids, written by either implementation, returns the same refs from both readers, and they are the refs of the input that point at the object.
-// bounds: 2 refs (thorough 2..3) named a,b,c; object ids X,Y symbolic in their first 2 bytes (X != Y) plus a fixed id; each ref's value / peeled value among {X, Y, fixed, deletion}; query X, Y or an id occurring nowhere; min update index 5; BlockSize 96 x Unaligned x SkipIndexObjects; writer in {Go, C}
+// bounds: 2 refs (thorough 2..3) named a,b,c; object ids X,Y symbolic in their first 2 bytes, or (SHA-256, block size 128) in their last 2 bytes (X != Y) plus a fixed id; each ref's value / peeled value among {X, Y, fixed, deletion}; query X, Y or an id occurring nowhere; min update index 5; BlockSize 96/128 x Unaligned x SkipIndexObjects; writer in {Go, C}
 // covers: done
 func Harness_C15_small_refsfor() {
 	dir := VerifChoose(2)
 	cfg := Config{BlockSize: 96, Unaligned: VerifChoose(2) == 1, SkipIndexObjects: VerifChoose(2) == 1, RestartInterval: 1}
-	x, y, z, f := make([]byte, 20), make([]byte, 20), make([]byte, 20), make([]byte, 20)
-	for i := 2; i < 20; i++ {
+	hs, s0, s1 := 20, 0, 1
+	if VerifChoose(2) == 1 {
+		// SHA-256 ids that differ only in their last two bytes
+		cfg.HashID = SHA256ID
+		cfg.BlockSize = 128
+		hs, s0, s1 = 32, 30, 31
+	}
+	x, y, z, f := make([]byte, hs), make([]byte, hs), make([]byte, hs), make([]byte, hs)
+	for i := 0; i < hs; i++ {
 		x[i], y[i], z[i], f[i] = 0x77, 0x77, 0x77, 0x70
 	}
-	x[0], x[1], y[0], y[1], z[0], z[1] = VerifU8(), VerifU8(), VerifU8(), VerifU8(), VerifU8(), VerifU8()
+	x[s0], x[s1], y[s0], y[s1], z[s0], z[s1] = VerifU8(), VerifU8(), VerifU8(), VerifU8(), VerifU8(), VerifU8()
 	VerifAssume(!bytesEq(x, y))
 	VerifAssume(!bytesEq(x, z))
 	VerifAssume(!bytesEq(y, z))
@@ -958,11 +965,11 @@ func Harness_C15_small_refsfor() {
 	exp := c15Head(nil, 5, 6)
 	for _, r := range refs {
 		if bytesEq(r.Value, q) || bytesEq(r.TargetValue, q) {
-			exp = c15Ref(exp, r, 20)
+			exp = c15Ref(exp, r, hs)
 		}
 	}
 	exp = c15End(exp, 0)
-	goDump := c15GoRefsFor(rd, q, 20)
+	goDump := c15GoRefsFor(rd, q, hs)
 	VerifAssert(goDump == nil || bytesEq(goDump, exp), "refsfor-differs-from-input")
 	c15Same(data, 2, q, 0, goDump, "readers-differ-on-refsfor")
 	VerifCover("done")
